@@ -7,10 +7,14 @@ V  every run of the real DomainAssembler threads (harness/c17_threads.cpp, hooks
    perturbation) is recorded and validated by TLC against spec/Trace_ThreadAsm.tla: every event must be
    the next step of its thread in the protocol, all invariants hold at every step with the real mesh
    adjacency, the work distribution equals the WorkDist transcription, and the results equal the serial ones.
+D  spec/Sched_ThreadAsm.tla / Sched_ThreadAsmPCT.tla: behaviours of the protocol model, computed for the work distribution the
+   real assembler compiled, are printed as schedules (uniformly random interleavings and priority/PCT schedules) and FORCED onto
+   the real threads (harness/c17_driven.cpp): every hook and job call is a scheduling point, the implementation's next event must
+   be the model's next event (kind, argument, fence flag), a stall or early stop is a divergence.
 """
 import json, os, random, shutil
 import concurrent.futures as cf
-import vlib, c17_mc
+import vlib, c17_mc, c17_driven
 
 LEVEL = "model_checking"
 
@@ -187,13 +191,20 @@ def run(chk, variant="std"):
                 "fairness) and every layer-size vector of MC_WorkDist; runs: seeded stratified sample of the TLC-enumerated configuration "
                 "space (mesh x subset x strategy x requested workers 0..cells+2 x scatter/combine x repeated jobs x injected failure), each "
                 "executed by the real threads under seeded schedule perturbation and validated event by event against Trace_ThreadAsm; "
-                "non-trivial = a run that really used >= 2 worker threads; distinct = distinct configuration")
+                "non-trivial = a run that really used >= 2 worker threads; distinct = distinct configuration. Driven schedules: for 13 (thorough 19) "
+                "configurations TLC -simulate prints behaviours of ThreadAsm instantiated with the compiled work distribution - uniformly random "
+                "interleavings and priority (PCT) schedules with 0-3 change points, with injected task failures where MayFail allows - and the real "
+                "threads are forced along each one; distinct = distinct (configuration, event sequence)")
     for c in [x for x, rr in zip(cases, res) if (rr.get("W") or 0) >= 2][:3]:
         chk.sample({x: c[x] for x in ("nx", "ny", "comps", "subset", "strategy", "maxw", "scatter", "combine", "jobs", "fail")})
     chk.assumptions = ["event stamps come from one atomic counter; fence events are stamped while the fence mutex is held",
-                       "schedules of the real threads are sampled (perturbed by seeded yields/sleeps), all interleavings only in the model",
+                       "free-running schedules of the real threads are sampled (perturbed by seeded yields/sleeps) and the forced ones are drawn by TLC's simulator; all interleavings only in the model",
+                       "forced schedules: the acquisition order of the assembler's mutex cannot be forced (no scheduling point before the lock); the schedule is re-ordered to the observed order, which is also a behaviour of the model",
                        "the job used for observation scatters integer contributions into per-vertex slots (vertex-adjacent cells collide)"]
     shutil.rmtree(tdir, ignore_errors=True)
+    # G for schedules: TLC behaviours (uniform + priority/PCT schedules) forced onto the real threads (lib/c17_driven.py)
+    chk.extra["driven"] = True
+    chk.traces += c17_driven.run(chk, variant)
     real_jobs(chk, variant)
     if chk.tier == "thorough" and variant == "std":
         # the same runs under ThreadSanitizer (no OpenMP): physical data races are reported as outcome 'sanitizer'
